@@ -149,6 +149,7 @@ type netResult struct {
 	never    string // stage at which a flush stayed unanswered although the server was reachable
 	missing  int
 	twice    int
+	early    int // answered with context.Canceled although no context had been cancelled
 	flushes  int
 	accepted int
 	detail   string
@@ -185,8 +186,15 @@ func runNetOnce(r *mon.Run, c netCase, payload replayCase) (res netResult) {
 	}()
 
 	var probes []*probe
+	var stopIssued atomic.Bool
+	var early atomic.Int64 // flushes answered with a cancellation before anybody cancelled anything
 	submit := func() *probe {
 		p := &probe{}
+		p.onCb = func() {
+			if !stopIssued.Load() && isCancellation(p.first()) {
+				early.Add(1)
+			}
+		}
 		probes = append(probes, p)
 		be.SendMetricsAsync(context.Background(), gaugeMap(fmt.Sprintf("s%d", len(probes)), 2, ""), p.cb)
 		return p
@@ -273,6 +281,7 @@ func runNetOnce(r *mon.Run, c netCase, payload replayCase) (res netResult) {
 	}()
 
 	// quiescence: stop the sender; after Run has returned nothing can call back any more
+	stopIssued.Store(true)
 	cancel()
 	returned := true
 	select {
@@ -281,6 +290,7 @@ func runNetOnce(r *mon.Run, c netCase, payload replayCase) (res netResult) {
 		returned = false
 	}
 	res.flushes = len(probes)
+	res.early = int(early.Load())
 	res.accepted = int(srv.accepted.Load())
 	for _, p := range probes {
 		switch n := p.calls.Load(); {
@@ -290,8 +300,8 @@ func runNetOnce(r *mon.Run, c netCase, payload replayCase) (res netResult) {
 			res.twice++
 		}
 	}
-	res.detail = fmt.Sprintf("%s built by backends.InitBackend from %q, scenario %s: %d flushes, %d without callback, %d called back twice, unanswered at stage %q, listener accepted %d connection(s) and read %d bytes, Run returned after cancel: %v, uptime %v",
-		c.Backend, text, c.Scenario, res.flushes, res.missing, res.twice, res.never, res.accepted, srv.bytes.Load(), returned, time.Since(t0).Round(time.Millisecond))
+	res.detail = fmt.Sprintf("%s built by backends.InitBackend from %q, scenario %s: %d flushes, %d without callback, %d called back twice, %d answered with a cancellation nobody issued, unanswered at stage %q, listener accepted %d connection(s) and read %d bytes, Run returned after cancel: %v, uptime %v",
+		c.Backend, text, c.Scenario, res.flushes, res.missing, res.twice, res.early, res.never, res.accepted, srv.bytes.Load(), returned, time.Since(t0).Round(time.Millisecond))
 	if !returned && res.missing == 0 && res.setup == "" {
 		res.setup = "net:run-not-returned"
 	}
@@ -331,6 +341,9 @@ func runNetCase(r *mon.Run, c netCase) {
 	}
 	if res.twice > 0 {
 		r.Violation(c.Backend+":callback-twice", res.detail, payload)
+	}
+	if res.early > 0 {
+		r.Violation(fmt.Sprintf("%s:cancelled-but-never-cancelled:net-%s", c.Backend, c.Scenario), res.detail, payload)
 	}
 	r.Eval(1)
 	r.Event("scripts:net-"+c.Backend, 1)
